@@ -123,7 +123,13 @@ func (e *Eng) collectObjTypes() {
 			}
 		}
 	}
-	for _, fn := range e.fnByKey {
+	var fkeys []string
+	for k := range e.fnByKey {
+		fkeys = append(fkeys, k)
+	}
+	sort.Strings(fkeys)
+	for _, fk := range fkeys {
+		fn := e.fnByKey[fk]
 		if fn.Pkg == nil || !strings.HasPrefix(fn.Pkg.Pkg.Path(), modPath) {
 			continue
 		}
